@@ -104,39 +104,40 @@ fn fri_verify_layers(
     eval_points: Vec<Felt>,
     step_sizes: Vec<Felt>,
     mut queries: Vec<FriLayerQuery>,
-) -> Vec<FriLayerQuery> {
-    let len: usize = n_layers.to_biguint().try_into().unwrap();
+) -> Result<Vec<FriLayerQuery>, Error> {
+    let len: usize = n_layers.to_biguint().try_into().map_err(|_| Error::InvalidValue)?;
 
     for i in 0..len {
-        let target_layer_witness = layer_witness.get(i).unwrap();
+        let target_layer_witness = layer_witness.get(i).ok_or(Error::LayerDataMissing)?;
         let mut target_layer_witness_leaves = target_layer_witness.leaves.to_owned();
         let target_layer_witness_table_withness = target_layer_witness.table_witness.to_owned();
-        let target_commitment = commitment.get(i).unwrap().clone();
+        let target_commitment = commitment.get(i).ok_or(Error::LayerDataMissing)?.clone();
 
         // Params.
-        let coset_size = Felt::TWO.pow_felt(step_sizes.get(i).unwrap());
+        let coset_size = Felt::TWO.pow_felt(step_sizes.get(i).ok_or(Error::LayerDataMissing)?);
         let params = FriLayerComputationParams {
             coset_size,
             fri_group: fri_group.clone(),
-            eval_point: *eval_points.get(i).unwrap(),
+            eval_point: *eval_points.get(i).ok_or(Error::LayerDataMissing)?,
         };
 
         // Compute next layer queries.
         let (next_queries, verify_indices, verify_y_values) =
-            compute_next_layer(&mut queries, &mut target_layer_witness_leaves, params).unwrap();
+            compute_next_layer(&mut queries, &mut target_layer_witness_leaves, params)
+                .map_err(|_| Error::LayerComputation)?;
 
         // Table decommitment.
-        let _ = table_decommit(
+        table_decommit(
             target_commitment,
             &verify_indices,
             TableDecommitment { values: verify_y_values },
             target_layer_witness_table_withness,
-        );
+        )?;
 
         queries = next_queries;
     }
 
-    queries
+    Ok(queries)
 }
 
 // FRI protocol component decommitment.
@@ -166,9 +167,9 @@ pub fn fri_verify(
         commitment.inner_layers,
         witness.layers,
         commitment.eval_points,
-        commitment.config.fri_step_sizes[1..commitment.config.fri_step_sizes.len()].to_vec(),
+        commitment.config.fri_step_sizes.get(1..).ok_or(Error::LayerDataMissing)?.to_vec(),
         fri_queries,
-    );
+    )?;
 
     if Felt::from(commitment.last_layer_coefficients.len())
         != Felt::TWO.pow_felt(&commitment.config.log_last_layer_degree_bound)
@@ -195,6 +196,15 @@ pub enum Error {
 
     #[error("Last layer verification error")]
     LastLayerVerificationError,
+
+    #[error("missing witness, commitment, step size or evaluation point for an inner layer")]
+    LayerDataMissing,
+
+    #[error("layer computation error")]
+    LayerComputation,
+
+    #[error("layer decommitment error")]
+    LayerDecommit(#[from] swiftness_commitment::table::decommit::Error),
 }
 
 #[cfg(not(feature = "std"))]
@@ -211,4 +221,13 @@ pub enum Error {
 
     #[error("Last layer verification error")]
     LastLayerVerificationError,
+
+    #[error("missing witness, commitment, step size or evaluation point for an inner layer")]
+    LayerDataMissing,
+
+    #[error("layer computation error")]
+    LayerComputation,
+
+    #[error("layer decommitment error")]
+    LayerDecommit(#[from] swiftness_commitment::table::decommit::Error),
 }
